@@ -42,6 +42,12 @@ func genC07(seed uint64, tier Tier) *Case {
 	}
 	c.Steps = append(c.Steps, Step{Kind: "start"})
 	writers, readers := g.r.Range(1, 4), g.r.Range(1, 4)
+	// retry runs: writers re-send some bulks; a repeat may land in a later fraction, so only listing and
+	// fetch are compared at quiescence in these runs (C17 decides the counts)
+	retries := !retention && g.r.Bool(0.15)
+	if retries {
+		c.Oracles.IDsOnly = true
+	}
 	scale := 1
 	if tier.Thorough {
 		scale = 2
@@ -59,6 +65,11 @@ func genC07(seed uint64, tier Tier) *Case {
 				continue
 			}
 			ops = append(ops, g.bulk(g.bulkSize()))
+			if retries && g.r.Bool(0.3) {
+				// the writer did not see the acknowledgement in time and sends the same bulk again
+				g.nextBulk++
+				ops = append(ops, Op{Kind: "bulk", Bulk: g.nextBulk, Docs: ops[len(ops)-1].Docs})
+			}
 			if g.r.Bool(0.3) {
 				ops = append(ops, Op{Kind: "sleep", Ms: g.r.Range(1, 120)})
 			}
@@ -145,7 +156,24 @@ func genC08(seed uint64, tier Tier) *Case {
 		c.Steps = append(c.Steps, Step{Kind: "sleep", Ms: int64(4 * c.Knobs.MaintenanceDelayMs)})
 	} else if g.r.Bool(0.3) {
 		c.Knobs.FracSize = 1000 // seal on graceful stop (fraction larger than 20% of FracSize)
-		c.Steps = append(c.Steps, Step{Kind: "stop"})
+		if g.r.Bool(0.5) {
+			// ... while clients keep sending: the seal on exit must not publish less than was acknowledged
+			var late [][]Op
+			for ci := 0; ci < g.r.Range(1, 3); ci++ {
+				var ops []Op
+				for i := 0; i < g.r.Range(2, 6); i++ {
+					ops = append(ops, g.bulk(g.r.Range(1, 4)))
+				}
+				late = append(late, ops)
+			}
+			late = append(late, []Op{{Kind: "sleep", Ms: g.r.Range(0, 3)}, {Kind: "stop"}})
+			c.Steps = append(c.Steps, Step{Kind: "par", Clients: late})
+			// a bulk that is refused by the stopping store is retried by the store in a busy loop until the
+			// request's deadline: simulated time has to pass while it spins
+			c.Knobs.StepCostNs = 100000
+		} else {
+			c.Steps = append(c.Steps, Step{Kind: "stop"})
+		}
 	} else {
 		c.Steps = append(c.Steps, Step{Kind: "seal"})
 	}
@@ -270,6 +298,9 @@ func genC15(seed uint64, tier Tier) *Case {
 		}
 		if g.r.Bool(0.3) {
 			c.Steps = append(c.Steps, Step{Kind: "tamper", Tamper: []string{"delete", "garble", "truncate", "stale"}[g.r.Intn(4)]})
+		}
+		if g.r.Bool(0.15) {
+			c.Steps = append(c.Steps, Step{Kind: "start_cancelled", Ms: int64(g.r.Range(1, 10))})
 		}
 		c.Steps = append(c.Steps, Step{Kind: "start"}, Step{Kind: "validate", Label: fmt.Sprintf("round%d", round)})
 	}
@@ -501,7 +532,17 @@ func genC03(seed uint64, tier Tier) *Case {
 		}
 		ops = append(ops, g.bulk(n))
 	}
-	c.Steps = append(c.Steps, seqStep(ops...))
+	if g.r.Bool(0.5) {
+		// searches next to the ingestion: readers, index workers and background merge workers share the
+		// per-token posting lists that the sealer reads afterwards
+		var rops []Op
+		for i := 0; i < 2*nb; i++ {
+			rops = append(rops, Op{Kind: "search", S: g.search(false)})
+		}
+		c.Steps = append(c.Steps, Step{Kind: "par", Clients: [][]Op{ops, rops}}, Step{Kind: "wait_idle"})
+	} else {
+		c.Steps = append(c.Steps, seqStep(ops...))
+	}
 	c.Steps = append(c.Steps, Step{Kind: "validate", Label: "active"})
 	c.Steps = append(c.Steps, Step{Kind: "seal"}, Step{Kind: "validate", Label: "sealed-preloaded"})
 	if g.r.Bool(0.6) {
